@@ -52,6 +52,11 @@ func (s *Server) TransactionSet(ctx context.Context, req *sdcpb.TransactionSetRe
 		if intent.GetPriority() == 0 && !intent.GetDelete() && !intent.GetOrphan() {
 			return nil, status.Errorf(codes.InvalidArgument, "missing priority of intent %q", intent.GetIntent())
 		}
+		// priorities are positive: the cache orders them as unsigned numbers, a negative one would rule in the tree
+		// and come last in the stores
+		if intent.GetPriority() < 0 {
+			return nil, status.Errorf(codes.InvalidArgument, "priority %d of intent %q is not positive", intent.GetPriority(), intent.GetIntent())
+		}
 		ti, err := ds.SdcpbTransactionIntentToInternalTI(ctx, intent)
 		if err != nil {
 			return nil, err
